@@ -192,10 +192,11 @@ ASSUME_SET = [
 def c01(tier):
     q = tier == 'quick'
     return {
-        'rule': 'model: all pairs of subsets of 6 atoms x 48 binary-algebra calls (exhaustive, TLC); every transition is a script replayed under sampled concretisations x random build recipes; plus randomized real-scale traces; a case is one recorded call, non-trivial when it has at least one non-empty operand',
+        'rule': 'model: all pairs of subsets of 6 atoms x 48 binary-algebra calls (exhaustive, TLC) + all pairs of subsets of 5 chunk-sized cells (every alignment of chunk keys) x 48 calls; every transition is a script replayed under sampled concretisations x random build recipes; plus randomized real-scale traces; a case is one recorded call, non-trivial when it has at least one non-empty operand',
         'assumptions': ASSUME_SET,
         'phases': [
             {'kind': 'replay', 'model': M('pairs_S6', 'pairs', 'S6'), 'kinds': ALLKINDS[:8], 'sample': 0.004 if q else 0.08},
+            {'kind': 'replay', 'model': M('keys_K5', 'keys', 'K5'), 'kinds': ['chunky', 'keyspread', 'chunky'], 'sample': 0.06 if q else 1.0},
             {'kind': 'drive', 'profile': 'algebra', 'traces': 160 if q else 3000, 'steps': 40},
             {'kind': 'drive', 'profile': 'kernel', 'traces': 900 if q else 20000, 'steps': 0},
         ],
@@ -229,6 +230,7 @@ def c03(tier):
             {'kind': 'replay', 'model': M('step_S7', 'step', 'S7'), 'kinds': ALLKINDS[:8], 'sample': 0.02 if q else 0.5,
              'extra': ['-opfilter', 'query']},
             {'kind': 'drive', 'profile': 'query', 'traces': 160 if q else 3000, 'steps': 50},
+            {'kind': 'drive', 'profile': 'kernel', 'traces': 600 if q else 12000, 'steps': 0},
         ],
     }
 
@@ -450,7 +452,7 @@ def c12(tier):
             {'kind': 'drive', 'cmd': 'bsi', 'profile': 'query', 'traces': 96 if q else 1500, 'steps': 30, 'shards': 6, 'gomaxprocs': [1, 2, 4, 16],
              'trace_module': 'TraceBSI.tla', 'trace_cfg': 'TraceBSI.cfg'},
             {'kind': 'gate', 'configs': sorted(GATE_CONFIGS), 'runs': 12 if q else 150, 'gomaxprocs': [1, 2, 4, 16]},
-            {'kind': 'walk', 'configs': WALK_QUICK if q else WALK_THOROUGH, 'walks': 1500 if q else 40000, 'gomaxprocs': [4, 16, 2, 1]},
+            {'kind': 'walk', 'configs': WALK_QUICK if q else WALK_THOROUGH, 'walks': 1500 if q else 40000, 'budget': 120 if q else 1500, 'gomaxprocs': [4, 16, 2, 1]},
         ],
     }
 
